@@ -80,7 +80,10 @@ inductive Op where
   | fcall (a f : Nat) (timeout : Option Nat)
   | handle (a : Nat) (act : Act)        -- `a` dequeues and handles its next message
   | later (p : Nat) (act : Act)         -- a kept/detached port is used afterwards (`reply`/`drop`)
-  | exit (a : Nat)                      -- stop / kill / handler failure
+  | exit (a : Nat)                      -- kill / handler failure
+  /-- graceful stop: the handler blocked on the current message (if any) finishes with `act`,
+  then the actor processes the stop and exits — before any task woken by that reply runs -/
+  | stop (a : Nat) (act : Act)
   | drain (a : Nat)
   | advance (d : Nat)
   deriving Repr
@@ -167,22 +170,25 @@ def applyAct (s : S) (p : Nat) (holder : Nat) (act : Act) : S :=
   | .keep => setCall s p (fun c => { c with loc := .actor holder })
   | .detach => setCall s p (fun c => { c with loc := .detached })
 
+/-- `a` dequeues its next message and its handler performs `act` -/
+def handleCore (s : S) (a : Nat) (act : Act) : S :=
+  match s.actors[a]? with
+  | some x =>
+    if !x.alive then s else
+    match x.mailbox with
+    | [] => if x.draining then exitActor s a else s       -- the drain marker: stop by itself
+    | .call p :: _ =>
+      applyAct (setActor s a (fun y => { y with mailbox := y.mailbox.tail })) p a act
+    | .fwd v :: _ =>
+      setActor s a (fun y => { y with mailbox := y.mailbox.tail, received := y.received ++ [v] })
+  | none => s
+
 def stepCore (s : S) : Op → S
   | .spawn => { s with actors := s.actors ++ [⟨true, false, [], []⟩] }
   | .call a t => (sendCall s a t none none).1
   | .mcall as t => { sendMulti s s.groups t as with groups := s.groups + 1 }
   | .fcall a f t => (sendCall s a t none (some f)).1
-  | .handle a act =>
-    match s.actors[a]? with
-    | some x =>
-      if !x.alive then s else
-      match x.mailbox with
-      | [] => if x.draining then exitActor s a else s       -- the drain marker: stop by itself
-      | .call p :: rest =>
-        applyAct (setActor s a (fun x => { x with mailbox := rest })) p a act
-      | .fwd v :: rest =>
-        setActor s a (fun x => { x with mailbox := rest, received := x.received ++ [v] })
-    | none => s
+  | .handle a act => handleCore s a act
   | .later p act =>
     match s.calls[p]? with
     | some c =>
@@ -194,10 +200,18 @@ def stepCore (s : S) : Op → S
        | _, _ => s)
     | none => s
   | .exit a => exitActor s a
+  | .stop a act => exitActor (handleCore s a act) a
   | .drain a => setActor s a (fun x => if x.alive then { x with draining := true } else x)
   | .advance d => { s with now := s.now + d }
 
-def step (s : S) (op : Op) : S := resolve (stepCore s op)
+/-- A draining actor whose mailbox is empty has reached its drain marker: it stops by itself. -/
+def drainExits (s : S) : S :=
+  (List.range s.actors.length).foldl (fun s a =>
+    match s.actors[a]? with
+    | some x => if x.alive && x.draining && x.mailbox.isEmpty then exitActor s a else s
+    | none => s) s
+
+def step (s : S) (op : Op) : S := resolve (drainExits (stepCore s op))
 
 def run (ops : List Op) : S := ops.foldl step init
 
